@@ -310,6 +310,41 @@ def c05_chains(tier, rnd):
     return progs, pool
 
 
+def c05_sametext(tier, rnd):
+    """nested elements whose definitions are written with the very same text (`x e(1)` on the element and on a
+    descendant, as tal:define or tal:repeat): what is saved and restored belongs to the element, not to the text"""
+    progs = []
+    for name in ("x", "len"):
+        for depth in (2, 3):
+            for kinds in itertools.product("LRG", repeat=depth):
+                if kinds.count("G") > 1 or (tier == "quick" and depth == 3 and rnd.random() < 0.5):
+                    continue
+                for bound in (False, True):
+                    al = Alloc(tier)
+                    cl = al.call("define", [S("a"), S("b")])
+                    cr = al.call("repeat", [SEQ([S("a"), S("b")]), SEQ([S("c")])])
+                    # (a global gets values of its own: a local that is the very object the global holds is the
+                    # subject of a recorded finding)
+                    cg = al.call("define", [S("p"), S("u")])
+                    sn = [0]
+
+                    def snp():
+                        sn[0] += 1
+                        return Text("s", snap(sn[0]))
+                    items = [snp()]
+                    for k in kinds:
+                        if k == "R":
+                            items.append(Open(rep=(False, name, cr), sattr=[]))
+                        else:
+                            items.append(Open(define=[(k == "G", name, cg if k == "G" else cl)], sattr=[]))
+                        items.append(snp())
+                    for k in kinds:
+                        items += [CLOSE, snp()]
+                    progs.append(program(items, al.dom, init=({name: S("u0")} if bound else {}),
+                                         fam="C05.sametext:%s:%s:%s" % (name, "".join(kinds), bound)))
+    return progs, ["x", "len"]
+
+
 def c05_siblings(tier, rnd):
     """a defining element followed by a sibling that reads the name in an
     expression (text probe): shadowing a builtin or helper name is local"""
@@ -759,6 +794,20 @@ def c08_family(tier, rnd):
     items = [Text("pre\n  "), Open(rep=(False, "x", al.call("repeat", kinds))), _repbody("x", ["index", "length", "end"]), CLOSE,
              Text("post", pipe(var("x"), const(S("u0"))))]
     progs.append(program(items, al.dom, fam="C08:kinds"))
+    # (b') the same sequence in other Python carriers (tuple, UserList, a sized container whose iterator is a
+    # generator, an iterable without length, the old __getitem__ protocol, deque): every variable at every position,
+    # alone and as outer / inner loop
+    for car in ("tuple", "userlist", "bag", "nolen", "oldseq", "deque"):
+        al = Alloc(tier)
+        items = [Text("pre\n  "), Open(rep=(False, "x", al.call("repeat", [SEQ([S("a"), S("b"), S("c")]), SEQ([S("a")]), SEQ([])]))),
+                 _repbody("x"), CLOSE, Text("post", pipe(var("x"), const(S("u0"))))]
+        progs.append(program(items, al.dom, cfg={"_carrier": car}, fam="C08:carrier:%s" % car))
+        al = Alloc(tier)
+        items = [Text("pre\n "), Open(rep=(False, "x", al.call("repeat", [SEQ([S("a"), S("b")])]))),
+                 _repbody("x", ["index", "end"]), Text("\n  "),
+                 Open(rep=(False, "y", al.call("repeat", [SEQ([S("b"), S("c")]), SEQ([])])), sattr=[]), _repbody("y", ["number", "length", "letter"]),
+                 CLOSE, Text("o"), _repbody("x", ["index", "number", "Roman", "odd", "start", "end"]), CLOSE, Text("post")]
+        progs.append(program(items, al.dom, cfg={"_carrier": car}, fam="C08:carrier-nest:%s" % car))
     # (c) nesting with reused and distinct names; outer variables read after the inner loop
     names = ["x", "y"]
     for n1 in names:
